@@ -265,8 +265,11 @@ ApplyFn(a) ==
 (* multi-point crossover of parents of unequal length: by MultiPointURel). *)
 UnequalMP(a) == a.op = "multi_point" /\ Len(a.p) # Len(a.q)
 MultiPointURel(a, r) == r.k = "ok" /\ PairConserved(a.p, a.q, r.c1, r.c2)
+\* (cycle crossover: WHICH cycles are exchanged is not part of the statement -- a reply is judged by the helper theorems
+\*  PermutationClosure, GeneConservation and CycleWhole alone; the oracle CycleX is one admissible reply)
 FnRel(a, r) == IF a.op = "arith_x" THEN ArithXRel(a, r)
                ELSE IF UnequalMP(a) THEN MultiPointURel(a, r)
+               ELSE IF a.op = "cycle" THEN r.k = "ok" /\ Len(r.c1) = Len(a.p) /\ Len(r.c2) = Len(a.p)
                ELSE r = ApplyFn(a)
 DoFn(a) == /\ ValidFn(a)
            /\ act' = a
